@@ -6,7 +6,7 @@
 //! operations {set_scripts all / partial / delete, BlockFilters processing, SendBlock completing
 //! the record, fork rollback through the proof, get_cells, get_transactions, get_cells_capacity}
 //! with at least one writer runs on two real threads under the controlled scheduler: serially
-//! in both orders (reference) and with one (thorough: two) preemption(s) at every hook point
+//! in both orders (reference) and with up to two (thorough: three) preemptions at every hook point
 //! (every storage write, every acquisition of the matched_blocks lock, the reader mid-points).
 //! Oracle: no deadlock, no panic; the final state (whole key space, in-memory matched blocks)
 //! equals the final state of one of the two serial orders; every reader's answer equals its
@@ -408,6 +408,7 @@ fn run_schedule(env: &Env, main: &Chain, fork: &Chain, old: &mut Option<Sim>, pr
 
 pub(crate) fn run(opts: &Opts, report: &mut Report) {
     let thorough = opts.thorough();
+    let depth: usize = std::env::var("C17_DEPTH").ok().and_then(|x| x.parse().ok()).unwrap_or(if thorough { 3 } else { 2 });
     // ordered pairs with at least one writer, not both on the same handler object
     // (pre-state, pair): pre-state 0 = matched-blocks record pending, 1 = fully synced and indexed
     let mut pairs: Vec<(u8, [Op; 2])> = vec![];
@@ -511,29 +512,46 @@ pub(crate) fn run(opts: &Opts, report: &mut Report) {
         // one point in time"); the schedules that preempt the reader are judged against them.
         let reader_thread: Option<usize> = (0..2).find(|i| ops[*i].is_reader());
         let mut plans: Vec<(usize, Vec<(usize, usize)>, bool)> = vec![];
+        // all alternating preemption plans that start with thread `first`: the running thread is
+        // preempted at one of its hook points, then the other one at one of its own, then the
+        // first one again at a LATER point, ... up to `depth` preemptions
+        fn alternating(first: usize, points: [usize; 2], depth: usize, out: &mut Vec<Vec<(usize, usize)>>) {
+            fn rec(t: usize, from: [usize; 2], points: [usize; 2], left: usize, cur: &mut Vec<(usize, usize)>, out: &mut Vec<Vec<(usize, usize)>>) {
+                if left == 0 {
+                    return;
+                }
+                for i in from[t]..points[t] {
+                    cur.push((t, i));
+                    out.push(cur.clone());
+                    let mut f = from;
+                    f[t] = i + 1;
+                    rec(1 - t, f, points, left - 1, cur, out);
+                    cur.pop();
+                }
+            }
+            rec(first, [0, 0], points, depth, &mut vec![], out);
+        }
         if let Some(r) = reader_thread {
             let w = 1 - r;
             for i in 0..points[w] {
                 plans.push((w, vec![(w, i)], true));
             }
-            for j in 0..points[r] {
-                plans.push((r, vec![(r, j)], false));
-                if thorough {
-                    for i in 0..points[w] {
-                        plans.push((r, vec![(r, j), (w, i)], false));
-                        plans.push((w, vec![(w, i), (r, j)], false));
-                    }
+            let mut v = vec![];
+            alternating(r, points, depth, &mut v);
+            alternating(w, points, depth, &mut v);
+            for plan in v {
+                if plan.len() == 1 && plan[0].0 == w {
+                    continue;
                 }
+                let first = plan[0].0;
+                plans.push((first, plan, false));
             }
         } else {
             for first in [0usize, 1] {
-                for i in 0..points[first] {
-                    plans.push((first, vec![(first, i)], false));
-                    if thorough {
-                        for j in 0..points[1 - first] {
-                            plans.push((first, vec![(first, i), (1 - first, j)], false));
-                        }
-                    }
+                let mut v = vec![];
+                alternating(first, points, depth, &mut v);
+                for plan in v {
+                    plans.push((first, plan, false));
                 }
             }
         }
@@ -623,8 +641,8 @@ pub(crate) fn run(opts: &Opts, report: &mut Report) {
     report.set("states", json!(report.get("distinct_final_states")));
     report.set("transitions", json!(s));
     report.set("traces_validated_against_impl", json!(s));
-    report.set("rule", json!("one schedule = the two operations of a pair on two real threads over a rebuilt pre-state, exactly one thread runnable between hook points, preempted at the listed hook points; all schedules with <= 1 (thorough 2) preemptions of every pair; overlapped_schedules = schedules in which one operation ran to completion while the other was parked inside its own"));
-    report.set("bounds", json!({"preemptions": if thorough { 2 } else { 1 }, "operations": OPS.iter().map(|o| format!("{:?}", o)).collect::<Vec<_>>(), "pairs": "all unordered pairs with at least one writer, each started by either thread"}));
+    report.set("rule", json!("one schedule = the two operations of a pair on two real threads over a rebuilt pre-state, exactly one thread runnable between hook points, preempted at the listed hook points; all schedules with <= 2 (thorough 3) alternating preemptions of every pair; overlapped_schedules = schedules in which one operation ran to completion while the other was parked inside its own"));
+    report.set("bounds", json!({"preemptions": depth, "operations": OPS.iter().map(|o| format!("{:?}", o)).collect::<Vec<_>>(), "pairs": "all unordered pairs with at least one writer, each started by either thread"}));
     report.assume("memory orderings are not explored; a thread that blocks at a primitive without a lock point (any other lock, a DashMap shard, RocksDB) is detected by its OS state and the turn is forced over (counted); two threads blocking each other that way are reported as a deadlock; two pre-states");
     let _: BTreeMap<u8, u8> = BTreeMap::new();
 }
